@@ -99,17 +99,19 @@ class MATCHConv2d(nn.Conv2d, MATCHModule):
                 self.b_quantizer.dequantize = False
                 int_bias = self.b_quantizer(conv.bias, self.s_x, self.s_w)
                 int_bias = cast(torch.Tensor, int_bias)
+            else:
+                # Bias-free layer: an all-zero integer bias
+                int_bias = torch.zeros(self.out_channels, device=self.device)
 
         self.scale, self.shift = self._integer_approximation(self.s_w, self.s_x, self.s_y,
                                                              int_bias)
         with torch.no_grad():
-            if conv.bias is not None:
-                if not self.skip_requant:
-                    int_bias = int_bias * self.scale
-                    self.add_bias = int_bias.view(1, self.out_channels, 1, 1)
-                else:
-                    self.bias = cast(torch.Tensor, self.bias)
-                    self.bias.copy_(int_bias)
+            if not self.skip_requant:
+                int_bias = int_bias * self.scale
+                self.add_bias = int_bias.view(1, self.out_channels, 1, 1)
+            elif conv.bias is not None:
+                self.bias = cast(torch.Tensor, self.bias)
+                self.bias.copy_(int_bias)
             else:
                 self.add_bias = None
 
